@@ -343,8 +343,8 @@ def main(argv):
     # level 2: unary on level 1, binary level 1 x terminal (both orders)
     c = []
     fns2 = SCALAR_FNS if not quick else ["sqrt", "exp", "ln", "sin", "abs", "conj"]
-    partners = ["w", "W", "f", "x"] if quick else ["w", "W", "M", "f", "g", "c", "x"]
-    bops = ("mul", "add", "div", "dot", "inner") if quick else ("mul", "add", "sub", "div", "pow", "dot", "inner", "outer")
+    partners = ["w", "W", "f", "x"] if quick else ["w", "W", "M", "f", "x"]
+    bops = ("mul", "add", "div", "dot", "inner") if quick else ("mul", "add", "sub", "div", "dot", "inner")
     for s in l1:
         if s.cond or s.fid:
             continue
@@ -367,7 +367,7 @@ def main(argv):
     levels = [l0, l1, l2]
     if not quick:
         c = []
-        for s in sorted(l2, key=lambda s: (len(repr(s.recipe)), repr(s.recipe)))[:6000]:
+        for s in sorted(l2, key=lambda s: (len(repr(s.recipe)), repr(s.recipe)))[:1200]:
             if s.cond or s.fid:
                 continue
             r = s.recipe
